@@ -249,6 +249,15 @@ def shadow_set():
             "meta": {"src": "names", "pos": "namespace", "cls": "shadow", "kind": "struct", "word": "*", "key": "shadow|nested namespace spelled like a root namespace"}}
 
 
+_RE_LOOKUP = re.compile(r"does not name a type|no type named|has not been declared|no member named|is not a member of|was not declared in this scope")
+
+
+def shadowing_namespaces(sset):
+    """nested namespace directories of the set that are spelled like one of its root namespaces"""
+    roots = set(sset["roots"])
+    return sorted({"/".join(p.split("/")[:i + 1]) for p in sset["files"] for i, comp in enumerate(p.split("/")[:-1]) if i > 0 and comp in roots})
+
+
 def boundary_set():
     """array capacities at the edges of the length-prefix widths and primitives of every storage class, at byte-aligned and unaligned offsets:
     where option-dependent fast paths (whole-storage stores, bulk copies, capacity macros) change shape"""
@@ -1294,6 +1303,10 @@ class Campaign:
                     elif k == 0 and e.get("cause"):
                         dc = "a DSDL name that is a standard-library macro at that point is emitted unstropped"
                         diag = "%s  [the diagnosed line contains the DSDL identifier '%s', a macro here]" % (diag, e["cause"])
+                    elif k == 0 and lang == "cpp" and shadowing_namespaces(sset) and _RE_LOOKUP.search(diag):
+                        # structural attribution: only sets in which a NESTED namespace is spelled like a root namespace in play, only name-lookup diagnostics
+                        dc = "a type reference written from the root namespace is looked up inside a nested namespace spelled like that root namespace"
+                        diag = "%s  [nested namespaces spelled like a root namespace of the set: %s]" % (diag, ", ".join(shadowing_namespaces(sset)))
                     if dc in classes:
                         continue
                     classes.add(dc)
